@@ -38,7 +38,12 @@ func runC18(c *ctx, cfgNames []string) []procOut {
 			var coldEvals int64
 			for k := 0; k < nCold; k++ {
 				cc := configs[cn]
-				cpo := c.runConfig(cc, 8, []string{"-coldstart"}, env, fmt.Sprintf("+cold%d", k))
+				// scheduling varies with the number of Ps: cold starts alternate between all cores, 2 and 1
+				cenv := append([]string{}, env...)
+				if gm := []string{"", "2", "1", "4"}[k%4]; gm != "" {
+					cenv = append(cenv, "GOMAXPROCS="+gm)
+				}
+				cpo := c.runConfig(cc, 8, []string{"-coldstart"}, cenv, fmt.Sprintf("+cold%d", k))
 				if cpo.res != nil {
 					coldViol = append(coldViol, cpo.res.Violations...)
 					coldEvals += cpo.res.Evaluations
